@@ -67,6 +67,7 @@ package tcp
 // ComputeChecksums on; Ethernet (request MACs, type IPv4) first iff not VPN mode.
 //@ pred tcphdr(t *layers.TCP, f *PacketFiller, r *scan.Request, sp0 int) = fresh(t) && t.DstPort == r.DstPort && t.SrcPort == 32768 + sp0 && 32768 <= t.SrcPort && t.SrcPort <= 60999
 //@      && t.SYN == f.SYN && t.ACK == f.ACK && t.FIN == f.FIN && t.RST == f.RST && t.PSH == f.PSH && t.URG == f.URG && t.ECE == f.ECE && t.CWR == f.CWR && t.NS == f.NS
+//@      && len(t.Options) == 3 && t.Options[0].OptionLength == 2 + len(t.Options[0].OptionData) && t.Options[1].OptionLength == 2 + len(t.Options[1].OptionData) && t.Options[2].OptionLength == 2 + len(t.Options[2].OptionData)
 //@ pred iphdr(ip *layers.IPv4, r *scan.Request, id0 int) = fresh(ip) && ip.SrcIP == r.SrcIP && ip.DstIP == r.DstIP && ip.Protocol == 6 && ip.Version == 4 && ip.Id == 1 + id0 && 1 <= ip.Id && ip.Id <= 65535 && ip.TTL == 64
 //@ pred ethhdr(e *layers.Ethernet, r *scan.Request) = fresh(e) && e.SrcMAC == r.SrcMAC && e.DstMAC == r.DstMAC && e.EthernetType == 2048
 //@ func (*PacketFiller).Fill
@@ -130,9 +131,9 @@ package tcp
 //@ func NewPacketFiller
 //@   props C05 C01 C02 C11 C17 C19 C07 C13
 //@   observe o
-//@   entry row init:  [] -> loop 0
-//@   loop 0 row apply: [call o(bind_x)] when fresh(x) -> continue
-//@   loop 0 row done:  [] when fresh(ret) -> exit
+//@   entry row init:  [] when !f.SYN && !f.ACK && !f.FIN && !f.RST && !f.PSH && !f.URG && !f.ECE && !f.CWR && !f.NS && !f.vpnMode -> loop 0
+//@   loop 0 row apply: [call o(bind_x)] when x == f -> continue
+//@   loop 0 row done:  [] when fresh(ret) && ret == f -> exit
 
 // C06 / C03: constructor. Defaults (every TCP reply, all flag letters), then the options in order; the parser decodes
 // from Ethernet (IPv4 in VPN mode) into THIS method's own structs, skips unsupported layers, keeps panic recovery on
